@@ -17,8 +17,8 @@ TIERS = {
     "quick": {"stress": 200, "gated": 400, "depth": 60, "race": False, "par": 12,
               "model": [("BGPSessionMC_small.cfg", 8, ()), ("BGPSessionMC_live.cfg", 4, ())]},
     "thorough": {"stress": 1500, "gated": 5000, "depth": 70, "race": True, "par": 12,
-                 "model": [("BGPSessionMC_full.cfg", 12, ()), ("BGPSessionMC_small.cfg", 4, ()),
-                           ("BGPSessionMC_live.cfg", 4, ())]},
+                 "model": [("BGPSessionMC_full.cfg", 10, ()), ("BGPSessionMC_sets4.cfg", 4, ()),
+                           ("BGPSessionMC_live.cfg", 2, ())]},
 }
 CONFIRM_TRIES = 5
 MAX_INCONCLUSIVE_RUNS = 0.2
@@ -387,7 +387,9 @@ def run(chk):
         "cond.Wait with s.new == nil read under s.mu and every UPDATE the hook saw written already read by the peer; without "
         "the hook, s.conn != nil and s.new == nil read under s.mu and nothing received for VERIF_SETTLE_MS",
         "messages already in flight when Close takes s.mu may reach the peer afterwards; QuietAfterClose is judged on connection "
-        "attempts accepted after Close returned and on closed=TRUE read under s.mu at the hook's write/install points",
+        "attempts accepted after Close returned, on anything received on a connection whose OPEN the peer answered only after "
+        "Close returned (slow handshake: it was sent in reaction to that answer), and on closed=TRUE read under s.mu at the "
+        "hook's write/install points; a Close (or Set) that is still blocked on s.mu while the handshake is pending is not judged",
         "an abort of a connection the peer did not drop (e.g. by a stale reader) is reported as DRIFT, not as a violation: the "
         "statement does not forbid extra reconnections",
     ]
